@@ -3,6 +3,11 @@
 import json, os
 HERE = os.path.dirname(os.path.abspath(__file__))
 src = json.load(open(os.path.join(HERE, "manifest_src.json")))
+dd = os.path.join(HERE, "manifest_src.d")
+if os.path.isdir(dd):
+    for f in sorted(os.listdir(dd)):
+        if f.endswith(".json"):
+            src["props"].update(json.load(open(os.path.join(dd, f))))
 props = [json.loads(l)["id"] for l in open(os.path.join(HERE, "..", "properties.jsonl"))]
 checks, na = [], []
 for pid in props:
